@@ -28,8 +28,7 @@ Ltac facts I :=
   repeat match goal with
   | E : co ?s ?f = Some ?c |- _ => pose_new (slot_facts cap peer selof s I f c E)
   | E : Sel ?s ?g = SEvT ?f ?c |- _ => pose_new (sel_facts cap peer selof s I g f c E)
-  | L : ?k < nexts ?s, E : spc_ (Sb ?s ?k) = SFastT ?c |- _ => pose_new (fast_facts cap peer selof s I k c L (or_introl E))
-  | L : ?k < nexts ?s, E : spc_ (Sb ?s ?k) = SToT ?c |- _ => pose_new (fast_facts cap peer selof s I k c L (or_intror E))
+  | L : ?k < nexts ?s, E : spc_ (Sb ?s ?k) = SFastT ?c |- _ => pose_new (fast_facts cap peer selof s I k c L E)
   | L : ?k < nexts ?s, E : spc_ (Sb ?s ?k) = SArm |- _ => pose_new (sub_facts cap peer selof s I k L (or_introl E))
   | L : ?k < nexts ?s, E : spc_ (Sb ?s ?k) = SStore |- _ => pose_new (sub_facts cap peer selof s I k L (or_intror E))
   | E : aawake (A ?s ?a) = true |- _ => pose_new (awake_facts cap peer selof s I a E)
@@ -71,6 +70,16 @@ Proof.
   intros I H. pose proof (F1 _ _ _ _ I) as iF1.
   step_cases H; facts I; opn; dm; intros k0 Hk0; simp; upds; fin.
   all: try (apply iF1; lia).
+Qed.
+
+Lemma pres_S1 s ac s' : Inv s -> step s ac = Some s' ->
+  forall g f e, Sel s' g = THnd f e \/ Sel s' g = THnd2 f e -> selof f = g.
+Proof.
+  intros I H. pose proof (S1 _ _ _ _ I) as iS1.
+  step_cases H; facts I; opn; dm; intros g0 f0 e0 Hs; simp; upds; fin.
+  all: try (destruct Hs as [Hs|Hs]; try discriminate; inversion Hs; subst; fin).
+  all: try (eapply iS1; eauto).
+  all: try (eapply iS1; rewrite ?Esel; eauto).
 Qed.
 
 Lemma pres_H1 s ac s' : Inv s -> step s ac = Some s' ->
@@ -135,7 +144,7 @@ Proof.
 Qed.
 
 Lemma pres_H8 s ac s' : Inv s -> step s ac = Some s' ->
-  forall a k, ahome (A s' a) = HFast k -> k < nexts s' /\ (spc_ (Sb s' k) = SFastT a \/ spc_ (Sb s' k) = SToT a).
+  forall a k, ahome (A s' a) = HFast k -> k < nexts s' /\ spc_ (Sb s' k) = SFastT a.
 Proof.
   intros I H. pose proof (H8 _ _ _ _ I) as iH8.
   step_cases H; facts I; opn; dm; intros a0 k0 Hh; simp; upds; fin.
@@ -143,7 +152,7 @@ Proof.
 Qed.
 
 Lemma pres_H9 s ac s' : Inv s -> step s ac = Some s' ->
-  forall k a, k < nexts s' -> spc_ (Sb s' k) = SFastT a \/ spc_ (Sb s' k) = SToT a -> ahome (A s' a) = HFast k.
+  forall k a, k < nexts s' -> spc_ (Sb s' k) = SFastT a -> ahome (A s' a) = HFast k.
 Proof.
   intros I H. pose proof (H9 _ _ _ _ I) as iH9. pose proof (F1 _ _ _ _ I) as iF1.
   step_cases H; facts I; opn; dm; intros k0 a0 Lk Hk; simp; upds; fin.
@@ -193,18 +202,20 @@ Qed.
 
 (* K: a coroutine published while io_flag is set is about to be taken *)
 Definition Kw (s : st) (f : nat) : Prop :=
-  Sel s (selof f) = SEv f \/
-  exists k, k < nexts s /\ sfd (Sb s k) = f /\
-            (spc_ (Sb s k) = STo \/ spc_ (Sb s k) = STo2 \/ spc_ (Sb s k) = SChk \/ spc_ (Sb s k) = SFast).
+  Sel s (selof f) = SEv f \/ (exists e, Sel s (selof f) = THnd2 f e) \/
+  exists k, k < nexts s /\ sfd (Sb s k) = f /\ (spc_ (Sb s k) = SChk \/ spc_ (Sb s k) = SFast).
 
 Lemma pres_K s ac s' : Inv s -> step s ac = Some s' ->
   forall f a, co s' f = Some a -> flag s' f = true -> Kw s' f.
 Proof.
   intros I H. pose proof (K _ _ _ _ I) as iK. fold (Kw s) in iK. pose proof (F1 _ _ _ _ I) as iF1.
   step_cases H; facts I; opn; dm; intros f0 a0 Hc Hf; unfold Kw; simp; upds; fin.
-  all: try (destruct (iK _ _ Hc Hf) as [X|(k1 & L1 & F1' & P1)];
-            [left; upds; fin | right; exists k1; upds; fin; repeat split; fin; try lia; dj; auto 6]).
-  all: try (match goal with Ec : ?k < nexts ?s |- _ => right; exists k; upds; repeat split; fin; auto 6 end).
+  all: try (destruct (iK _ _ Hc Hf) as [X|[(e1 & X)|(k1 & L1 & F1' & P1)]];
+            [left; upds; fin | right; left; exists e1; upds; fin | right; right; exists k1; upds; fin; repeat split; fin; try lia; dj; auto 6]).
+  all: try (match goal with Ec : ?k < nexts ?s |- _ => right; right; exists k; upds; repeat split; fin; auto 6 end).
+  all: try (right; left; eexists; upds; fin; reflexivity).
+  all: try (exfalso; match goal with Es : Sel ?s ?g = THnd ?f ?e, N : selof ?f <> ?g |- _ =>
+              apply N; apply (S1 _ _ _ _ I g f e); left; exact Es end).
 Qed.
 
 Theorem inv_step s ac s' : Inv s -> step s ac = Some s' -> Inv s'.
@@ -213,6 +224,7 @@ Proof.
   - exact (pres_B1 _ _ _ I H).
   - exact (pres_B2 _ _ _ I H).
   - exact (pres_F1 _ _ _ I H).
+  - exact (pres_S1 _ _ _ I H).
   - exact (pres_H1 _ _ _ I H).
   - exact (pres_H2 _ _ _ I H).
   - exact (pres_H3 _ _ _ I H).
